@@ -136,6 +136,10 @@ func deferredOnError(cl *ssa.Function, at ssa.Instruction) bool {
 		return false
 	}
 	entry := cl.Blocks[0]
+	var panicSide *ssa.BasicBlock
+	if nb := recoverPrefix(cl); nb != nil {
+		panicSide, entry = entry, nb
+	}
 	nonNilSucc := entry.Succs[0]
 	flagGuard := false
 	switch cond := entry.Instrs[len(entry.Instrs)-1].(*ssa.If).Cond.(type) {
@@ -152,7 +156,12 @@ func deferredOnError(cl *ssa.Function, at ssa.Instruction) bool {
 	default:
 		return false
 	}
-	if len(nonNilSucc.Preds) != 1 || !(nonNilSucc == at.Block() || nonNilSucc.Dominates(at.Block())) {
+	for _, pr := range nonNilSucc.Preds {
+		if pr != entry && pr != panicSide {
+			return false
+		}
+	}
+	if len(nonNilSucc.Preds) == 0 || !(nonNilSucc == at.Block() || nonNilSucc.Dominates(at.Block())) {
 		return false
 	}
 	// only deferred
@@ -992,17 +1001,10 @@ func r7dNoRecovery(c *RuleCtx) {
 				if nilWhen {
 					nn = b.Succs[1]
 				}
-				reach := forwardReach(nn)
-				for _, ret := range returnsOf(fn) {
-					if !reach[ret.Block()] {
-						continue
-					}
-					if _, ns := errorOfReturn(ret); ns != nonNil {
-						// a return that the failing side can only reach by going round a loop again is a
-						// later iteration's business only if the failing side cannot fall through at all
-						bad = append(bad, "from the failing side of "+describeInstr(p, iff)+" a return that may report success is reachable: "+describeInstr(p, ret))
-						break
-					}
+				// (tests of the variable that holds this error are decided on the way: `err = …; break`
+				// followed by `if err != nil { return err }` after the loop ends in that return)
+				if ret := maySucceedAfterError(nn, b, e); ret != nil {
+					bad = append(bad, "from the failing side of "+describeInstr(p, iff)+" a return that may report success is reachable: "+describeInstr(p, ret))
 				}
 			}
 			if tested == 0 {
